@@ -24,12 +24,14 @@ theorem solveAlts_frames (prog : List Term) (n d nv : Nat) (fs : List SLD.Frame)
   rw [SLD.solveAlts]
   rfl
 
-theorem hornGoal_isGoal {t : Term} (h : hornGoal t = true) : SLD.isGoal t = true := by
-  cases t <;> simp_all [hornGoal, SLD.isGoal]
+theorem hornGoal_isGoal {t : Term} (h : cutGoal t = true) : SLD.isGoal t = true := by
+  rcases cutGoal_cases h with rfl | h
+  · rfl
+  · cases t <;> simp_all [hornGoal, SLD.isGoal]
 
-theorem okBody_horn {b : Term} (h : hornBody b = true) : SLD.okBody false b = true := by
+theorem okBody_horn {b : Term} (h : bodyOK b = true) : SLD.okBody false b = true := by
   simp only [SLD.okBody, Bool.false_eq_true, if_false, disjuncts_horn b h, List.all_cons, List.all_nil, Bool.and_true]
-  simp only [hornBody, List.all_eq_true] at h ⊢
+  simp only [bodyOK, List.all_eq_true] at h ⊢
   exact fun t ht => hornGoal_isGoal (h t ht)
 
 theorem addArgs_nil {b : Term} (hw : wfT b = true) (hnv : ∀ v, b ≠ .var v) (hc : SLD.isGoal b = true) :
@@ -44,26 +46,23 @@ theorem addArgs_nil {b : Term} (hw : wfT b = true) (hnv : ∀ v, b ≠ .var v) (
   | _ => simp [SLD.isGoal] at hc
 
 /-- a Horn body, as a goal: atom or compound -/
-theorem hornBody_isGoal {b : Term} (h : hornBody b = true) : SLD.isGoal b = true := by
+theorem hornBody_isGoal {b : Term} (h : bodyOK b = true) : SLD.isGoal b = true := by
   cases b with
-  | var v => exact absurd rfl (hornBody_not_var h v)
+  | var v => exact absurd rfl (bodyOK_not_var h v)
   | atom _ => rfl
   | app _ _ => rfl
   | int i =>
-    simp only [hornBody, SLD.conjuncts, SLD.wrapVar, List.all_cons, List.all_nil, Bool.and_true, hornGoal] at h
-    cases h
+    simp [bodyOK, SLD.conjuncts, SLD.wrapVar, cutGoal, hornGoal] at h
   | flt i =>
-    simp only [hornBody, SLD.conjuncts, SLD.wrapVar, List.all_cons, List.all_nil, Bool.and_true, hornGoal] at h
-    cases h
+    simp [bodyOK, SLD.conjuncts, SLD.wrapVar, cutGoal, hornGoal] at h
   | str i =>
-    simp only [hornBody, SLD.conjuncts, SLD.wrapVar, List.all_cons, List.all_nil, Bool.and_true, hornGoal] at h
-    cases h
+    simp [bodyOK, SLD.conjuncts, SLD.wrapVar, cutGoal, hornGoal] at h
 
 theorem solve_call1 (prog : List Term) (n d nv l : Nat) (b : Term) (rest : List SLD.Frame) (q : Term) (limit : Nat)
-    (hb : hornBody b = true) (hw : wfT b = true) :
+    (hb : bodyOK b = true) (hw : wfT b = true) :
     SLD.solve false prog (n + 1) d nv (.goal (SLD.call1 b) l :: rest) q limit =
       SLD.solveAlts false prog n d nv [.frames ((SLD.conjuncts b).map (SLD.Frame.goal · d))] rest q limit := by
-  have hnv := hornBody_not_var hb
+  have hnv := bodyOK_not_var hb
   rw [SLD.solve]
   · simp only [SLD.call1, SLD.functor, Args.toList, List.length_nil, Nat.not_lt_zero, if_false,
       addArgs_nil hw hnv (hornBody_isGoal hb), okBody_horn hb, if_true, SLD.bodyAlts, Bool.false_eq_true,
@@ -78,11 +77,11 @@ def sldEnd : SLD.Stop → SLD.End
   | .raised b _ => .ball b
 
 theorem solveQuery_horn (prog : List Term) (query : Term) (max f2 : Nat) (as2 : List Term) (e2 : SLD.End)
-    (hb : hornBody query = true) (hw : wfT query = true)
+    (hb : bodyOK query = true) (hw : wfT query = true)
     (h : SLD.solveQuery f2 prog query max = some (as2, e2)) :
     ∃ n r1, SLD.solve false (progS prog) n 1 (SLD.maxVar query)
         ((SLD.conjuncts query).map (SLD.Frame.goal · 0)) query max = some r1 ∧
-      as2 = r1.answers ∧ ((∀ c, r1.stop ≠ .cut c) → e2 = sldEnd r1.stop) := by
+      as2 = r1.answers ∧ e2 = sldEnd r1.stop := by
   unfold SLD.solveQuery at h
   simp only [Bool.false_eq_true, if_false] at h
   change (match SLD.solve false (progS prog) f2 0 (SLD.maxVar query) [.goal (SLD.call1 query) 0] query max with
@@ -113,19 +112,21 @@ theorem solveQuery_horn (prog : List Term) (query : Term) (max f2 : Nat) (as2 : 
             rw [solveAlts_nil] at h
             simp only [SLD.failed, Option.map_some, SLD.Res.prepend, List.append_nil, Option.some.injEq,
               Prod.mk.injEq] at h
-            exact ⟨h.1.symm, fun _ => h.2.symm⟩
+            exact ⟨h.1.symm, h.2.symm⟩
         | cut c =>
           rw [hst] at h
           simp only [Option.some.injEq, Prod.mk.injEq] at h
-          exact ⟨h.1.symm, fun hc => absurd rfl (hc c)⟩
+          refine ⟨h.1.symm, ?_⟩
+          rw [← h.2]
+          by_cases hc : c = 0 <;> simp [hc, sldEnd]
         | full =>
           rw [hst] at h
           simp only [Option.some.injEq, Prod.mk.injEq] at h
-          exact ⟨h.1.symm, fun _ => by rw [← h.2, hst]⟩
+          exact ⟨h.1.symm, by rw [← h.2, hst]⟩
         | raised b ex =>
           rw [hst] at h
           simp only [Option.some.injEq, Prod.mk.injEq] at h
-          exact ⟨h.1.symm, fun _ => by rw [← h.2, hst]⟩
+          exact ⟨h.1.symm, by rw [← h.2, hst]⟩
 
 /-! ### the VM's first activation: the query's own clause -/
 
